@@ -1101,21 +1101,21 @@ theorem prologue_sim2 (pre : Stmt) (all : List String) (te : C.TyEnv) (acc : Top
 
 theorem InF2_unfold (pre : Stmt) (body : Option Stmt) (hs : List Helper) :
     InF2 { pre := pre, body := body, helpers := hs } =
-      (match pre.okTop2 (allOf pre body) [] with
+      (match pre.okTop2 (allOf pre body hs) [] with
        | none => false
        | some te => match body with
          | none => true
-         | some b => b.okNested (allOf pre body) te) := rfl
+         | some b => b.okNested (allOf pre body hs) te) := rfl
 
 theorem C01_partial_promotion_core (p : Prog) (c : CProg) (N fuel : Nat) (t : List Ev)
     (hin : InF2 p = true) (htr : tr2Core p = .ok c) (hpy : Py.run p N fuel = .ok t) :
     ∃ fuel', C.run c N fuel' = .ok t ∨ UB (C.run c N fuel') := by
   obtain ⟨pre, body, helpers⟩ := p
   rw [InF2_unfold pre body helpers] at hin
-  have hall1 : ∀ x ∈ pre.assigned, x ∈ allOf pre body := fun x hx => List.mem_append_left _ hx
-  have hall2 : ∀ b, body = some b → ∀ x ∈ b.assigned, x ∈ allOf pre body := by
-    intro b hb x hx; subst hb; exact List.mem_append_right _ hx
-  generalize allOf pre body = all at hin hall1 hall2
+  have hall1 : ∀ x ∈ pre.assigned, x ∈ allOf pre body helpers := fun x hx => List.mem_append_left _ (List.mem_append_left _ hx)
+  have hall2 : ∀ b, body = some b → ∀ x ∈ b.assigned, x ∈ allOf pre body helpers := by
+    intro b hb x hx; subst hb; exact List.mem_append_left _ (List.mem_append_right _ hx)
+  generalize allOf pre body helpers = all at hin hall1 hall2
   cases hokTop : pre.okTop2 all [] with
   | none => rw [hokTop] at hin; cases hin
   | some te =>
@@ -1399,7 +1399,7 @@ theorem InF2_of_InF (p : Prog) (hin : InF p = true) : InF2 p = true := by
   obtain ⟨pre, body, helpers⟩ := p
   rw [InF_unfold pre body helpers] at hin
   rw [InF2_unfold pre body helpers]
-  cases h : pre.okTop (allOf pre body) [] with
+  cases h : pre.okTop (allOf pre body helpers) [] with
   | none => rw [h] at hin; cases hin
   | some te =>
     rw [h] at hin
